@@ -29,6 +29,17 @@ Bounds(T) == UNION {{x[2][1], x[2][2]} : x \in T} \ {NEG, POS}
 ProbePoints(T, U) ==
   LET b == Bounds(T) \cup Bounds(U) IN
   IF b = {} THEN {0, NEG, POS} ELSE ((MinOf(b) - 2)..(MaxOf(b) + 2)) \cup {NEG, POS}
+\* Coalescing (constructive): two finite intervals of one atom merge when they share an instant or are adjacent at
+\* the store's granularity. gap = 1 when one unit of the model IS the store's granularity (a nanosecond), gap = 0 when
+\* a unit is coarser (the evaluation family's unit is a second: [0,1] and [2,3] are a second apart, not adjacent).
+\* Each connected group of FINITE intervals becomes its hull; half-unbounded and eternal intervals stay as they are
+\* (the property speaks of the finite intervals only, and so does factstore.coalesceIntervals).
+IvMeet(x, y, gap) == x[1] <= y[2] + gap /\ y[1] <= x[2] + gap
+RECURSIVE Group(_, _, _)
+Group(S, ivs, gap) == LET S2 == S \cup {y \in ivs : \E z \in S : IvMeet(y, z, gap)} IN IF S2 = S THEN S ELSE Group(S2, ivs, gap)
+Hull(S) == <<MinOf({y[1] : y \in S}), MaxOf({y[2] : y \in S})>>
+CoalesceIvs(ivs, gap) == LET fin == {x \in ivs : Finite(x)} IN {Hull(Group({x}, fin, gap)) : x \in fin} \cup (ivs \ fin)
+CoalesceDB(T, gap) == UNION {{<<a, iv>> : iv \in CoalesceIvs(IvsOf(T, a), gap)} : a \in {x[1] : x \in T}}
 CoalesceOK(before, after) ==
   /\ {x[1] : x \in after} \subseteq {x[1] : x \in before}
   /\ \A a \in {x[1] : x \in before} :
